@@ -595,6 +595,10 @@ func independentV2(set []types.V2Transaction, c types.V2Transaction) bool {
 
 func runC14(r *mon.Run, replay string) {
 	r.Rule("chains stopped at heights where v1 and v2 transactions may both be pooled (mix regime between allow and require), then PRNG sequences of pool submissions built by the pure generator on top of the current pool: fresh, partly known, all known, valid-against-tip-but-conflicting-with-pool at position k, invalid at position k; after every call the pool listing is compared with the all-or-nothing expectation, the known flag with 'every id was pooled', caller memory with its byte image, the pool with itself after scribbling over submitted/returned values, and both lookup functions are called with every v1 id, v2 id and a random id; distinct = (stream, step, kind, pool composition)")
+	if st, ok := replayStream(replay); ok {
+		runC14History(r, st)
+		return
+	}
 	n := r.Pick(250, 4000)
 	parallel(n, func(i int) { runC14History(r, uint64(14000+i)) })
 	r.Floor("steps_with_both_kinds_pooled", 50)
